@@ -73,7 +73,8 @@ Inductive case :=
 | CMulti (e : mexpr)                                    (* + / MultiSweep *)
 | CFilter (r : rsweep) (keys : list str)                (* filtered_sweep(keys) *)
 | CFilterM (e : mexpr) (keys : list str)
-| CCount (r : rsweep) (deps : list (str * list str))    (* count_sweep with the given (dependency, root_args) *)
+| CCount (r : rsweep) (deps : list (str * list str))    (* count_sweep(Sweep object) and count_sweep(its .list()) *)
+| CCountM (e : mexpr) (deps : list (str * list str))    (* the same for a MultiSweep object *)
 | CSeq (base : list rsweep) (ops : list sop).           (* operations on shared objects, everything re-listed *)
 
 (* ---------- observations ---------- *)
@@ -129,7 +130,12 @@ Definition run (c : case) : sx :=
   | CFilter r keys => sx_of_result obs_sweep (filtered (to_sweep r) keys)
   | CFilterM e keys => sx_of_result obs_msweep (mfiltered (eval_m e) keys)
   | CCount r deps =>
-      SL [sx_deps deps; sx_of_result sx_counts (do cs <- generate (to_sweep r); count_sweep deps cs)]
+      (* the object form and the list form go through the same loop over list() *)
+      let oc := sx_of_result sx_counts (do cs <- generate (to_sweep r); count_sweep deps cs) in
+      SL [sx_deps deps; oc; oc]
+  | CCountM e deps =>
+      let oc := sx_of_result sx_counts (do cs <- mgenerate (eval_m e); count_sweep deps cs) in
+      SL [sx_deps deps; oc; oc]
   | CSeq base ops => run_seq base ops
   end.
 
@@ -311,29 +317,46 @@ Definition un_counts (x : sx) : option (list (str * list (list val * nat))) :=
 Fixpoint nodup_tuples (l : list (list val)) : bool :=
   match l with [] => true | x :: t => negb (mem_vals x t) && nodup_tuples t end.
 
+(* one reported count table against the documented combination list cs *)
+Definition counts_ok (deps : list (str * list str)) (cs : list combo) (oc : sx) : bool :=
+  match un_ok oc with
+  | Some cx =>
+      match un_counts cx with
+      | Some got =>
+          list_eqb str_eqb (map fst got) (map fst deps)
+          && forallb (fun dg =>
+               let args := snd (fst dg) in
+               let cnt := snd (snd dg) in
+               nodup_tuples (map fst cnt)
+               && forallb (fun kn => (0 <? snd kn) && (snd kn =? count_of args cs (fst kn))) cnt
+               && forallb (fun c => mem_vals (tuple_of args c) (map fst cnt)) cs)
+             (combine deps got)
+      | None => false
+      end
+  | None => false
+  end.
+
+(* both forms - the sweep object and its .list() - must report the documented counts *)
 Definition count_ok (r : rsweep) (deps : list (str * list str)) (o : sx) : bool :=
   let sw := to_sweep r in
   if wf_r r && nodup_str (map fst deps) && forallb (fun da => sublist_str (snd da) (combo_keys sw)) deps then
     match spec_list sw with
     | Ok cs =>
         match o with
-        | SL [_; oc] =>
-            match un_ok oc with
-            | Some cx =>
-                match un_counts cx with
-                | Some got =>
-                    list_eqb str_eqb (map fst got) (map fst deps)
-                    && forallb (fun dg =>
-                         let args := snd (fst dg) in
-                         let cnt := snd (snd dg) in
-                         nodup_tuples (map fst cnt)
-                         && forallb (fun kn => (0 <? snd kn) && (snd kn =? count_of args cs (fst kn))) cnt
-                         && forallb (fun c => mem_vals (tuple_of args c) (map fst cnt)) cs)
-                       (combine deps got)
-                | None => false
-                end
-            | None => false
-            end
+        | SL [_; oc1; oc2] => counts_ok deps cs oc1 && counts_ok deps cs oc2
+        | _ => false
+        end
+    | Err _ => true
+    end
+  else true.
+
+Definition countm_ok (rs : list rsweep) (deps : list (str * list str)) (o : sx) : bool :=
+  if forallb wf_r rs && nodup_str (map fst deps)
+     && forallb (fun r => forallb (fun da => sublist_str (snd da) (combo_keys (to_sweep r))) deps) rs then
+    match mapM_spec rs with
+    | Ok ls =>
+        match o with
+        | SL [_; oc1; oc2] => counts_ok deps (concat ls) oc1 && counts_ok deps (concat ls) oc2
         | _ => false
         end
     | Err _ => true
@@ -449,5 +472,6 @@ Definition spec_ok (c : case) (o : sx) : bool :=
   | CFilter r keys => filter_ok r keys o
   | CFilterM e keys => filterm_ok (leaves e) keys o
   | CCount r deps => count_ok r deps o
+  | CCountM e deps => countm_ok (leaves e) deps o
   | CSeq base ops => seq_ok base ops o
   end.
